@@ -205,6 +205,19 @@ theorem samplecov_variance_nonneg (K : Nat) (S : Mat ℝ) (k : Nat) (hk : k < K)
     0 ≤ ent (sampleCov K S) k k :=
   sampleCov_diag_nonneg K S k hk
 
+/-- **Correlations are normalised covariances**: in the robust family (BHHH positive
+semi-definite — it is a sum of outer products) and in the bootstrap family every reported
+correlation lies in [−1, 1] (regular case: positive variances; V and B symmetric). -/
+theorem correlation_range (K : Nat) (V B S : Mat ℝ) (hV : IsSymm K V) (hBs : IsSymm K B) (hB : PSD K B) (i j : Nat)
+    (hi : i < K) (hj : j < K) :
+    ((∀ k, k < K → 0 < ent (robust K V B) k k) → |ent (corr K (robust K V B)) i j| ≤ 1) ∧
+    ((∀ k, k < K → 0 < ent (sampleCov K S) k k) → |ent (corr K (sampleCov K S)) i j| ≤ 1) := by
+  constructor
+  · intro hpos
+    exact corr_abs_le_one K _ (robust_isSymm K V B hV hBs) (robust_psd K V B hV hB) hpos i j hi hj
+  · intro hpos
+    exact corr_abs_le_one K _ (sampleCov_isSymm K S) (sampleCov_psd K S) hpos i j hi hj
+
 /-! ### summary statistics -/
 
 /-- LR = −2(L₀ − L), AIC = 2K − 2L, BIC = −2L + K ln N -/
